@@ -76,6 +76,7 @@ class Analyzer:
         self.module_consts = {}
         self.module_funcs = {}
         self.ext_consts = {}
+        self.sinking_classes = set()
         for node in self.tree.body:
             if isinstance(node, ast.Assign) and len(node.targets) == 1 and isinstance(node.targets[0], ast.Name):
                 self.module_consts[node.targets[0].id] = node.value
@@ -88,6 +89,12 @@ class Analyzer:
                     self.ext_consts[a.asname or a.name] = Val(refs=dict_keys_of("model_conversions.py", a.name, self.pb))
             elif isinstance(node, ast.ClassDef) and node.name == classname:
                 self.cls = node
+            elif isinstance(node, ast.ClassDef):
+                # a module-level helper class one of whose methods reaches a sink (e.g. a context manager that sends the request it
+                # was given when its block ends): whatever message instance or class is handed to its constructor counts as sent /
+                # subscribed by the caller (over-approximation)
+                if any(isinstance(c, ast.Call) and isinstance(c.func, ast.Attribute) and c.func.attr in SINKS for c in ast.walk(node)):
+                    self.sinking_classes.add(node.name)
         self.methods = {n.name: n for n in self.cls.body if isinstance(n, (ast.FunctionDef, ast.AsyncFunctionDef))}
         self.param_vals = {}     # (method, param) -> Val, union over call sites
         self.changed = True
@@ -125,7 +132,7 @@ class Analyzer:
             v = Val()
             if e.id in env:
                 for x in env[e.id]:
-                    v |= self.ev(x, fn, env, depth + 1)
+                    v |= x if isinstance(x, Val) else self.ev(x, fn, env, depth + 1)
             v |= self.param_vals.get((fn.name, e.id), Val())
             if e.id in self.module_consts and e.id not in env:
                 v |= self.ev(self.module_consts[e.id], fn, {}, depth + 1)
@@ -143,11 +150,21 @@ class Analyzer:
             if isinstance(f, ast.Name) and f.id in self.pb:
                 return Val(inst={self.pb[f.id]})
             if isinstance(f, ast.Name) and f.id in self.module_funcs:
+                # a module-level helper: what it returns, with its parameters standing for what this call passes (over-approximation:
+                # every return statement, flow-insensitive)
                 v = Val()
                 mf = self.module_funcs[f.id]
+                env_mf = self.local_assignments(mf)
+                params = [a.arg for a in mf.args.posonlyargs + mf.args.args] + [a.arg for a in mf.args.kwonlyargs]
+                for i, a in enumerate(e.args):
+                    if i < len(params) and not isinstance(a, ast.Starred):
+                        env_mf.setdefault(params[i], []).append(self.ev(a, fn, env, depth + 1))
+                for k in e.keywords:
+                    if k.arg in params:
+                        env_mf.setdefault(k.arg, []).append(self.ev(k.value, fn, env, depth + 1))
                 for r in ast.walk(mf):
                     if isinstance(r, ast.Return):
-                        v |= self.ev(r.value, mf, self.local_assignments(mf), depth + 1)
+                        v |= self.ev(r.value, mf, env_mf, depth + 1)
                 return v
             if isinstance(f, ast.Name) and f.id in self.module_consts:
                 # alias of a (cached) module function, e.g. make_hello_request = lru_cache(...)(f)
@@ -218,6 +235,11 @@ class Analyzer:
         self._cur, self._cur_env = m, self.local_assignments(m)
         sent, types, callees = set(), set(), set()
         for node in ast.walk(m):
+            if isinstance(node, ast.Call) and isinstance(node.func, ast.Name) and node.func.id in self.sinking_classes:
+                for a in list(node.args) + [k.value for k in node.keywords]:
+                    v = self.ev(a, m, self._cur_env)
+                    sent.update(v.inst)
+                    types.update(v.refs)
             if not isinstance(node, ast.Call) or not isinstance(node.func, ast.Attribute):
                 continue
             attr = node.func.attr
